@@ -14,11 +14,12 @@ Fixpoint effective (acts : list action) : list action :=
   match acts with [] => [] | a :: r => if panics a then [] else a :: effective r end.
 Definition has_panic (acts : list action) : bool := existsb panics acts.
 
-(* the status the handler commits: its first WriteHeader, or the implicit 200 of its first Write *)
+(* the status the handler commits: its first non-informational WriteHeader, or the implicit 200 of its first Write
+   (1xx interim responses are not the response; behind the timeout guard they are not delivered at all) *)
 Fixpoint commit_status (acts : list action) : option Z :=
   match acts with
   | [] => None
-  | WriteHeader c :: _ => Some c
+  | WriteHeader c :: r => if is_info c then commit_status r else Some c
   | Write _ :: _ => Some statusOK
   | _ :: r => commit_status r
   end.
@@ -71,11 +72,17 @@ Definition committed (w : rwriter) (r : response) : Prop :=
    WriteHeader commits 200 with the headers of that moment, the body is everything written *)
 Fixpoint log_body (l : list revent) : list nat :=
   match l with [] => [] | RWrite bs :: r => bs ++ log_body r | _ :: r => log_body r end.
+(* informational 1xx calls in front of the commit are delivered as such and do not take part in the response *)
+Fixpoint skip_info (l : list revent) : list revent :=
+  match l with RWriteHeader c _ :: r => if is_info c then skip_info r else l | _ => l end.
+Fixpoint log_infos (l : list revent) : list Z :=
+  match l with RWriteHeader c _ :: r => if is_info c then c :: log_infos r else [] | _ => [] end.
 Definition client_view (w : rwriter) : response :=
-  match rw_log w with
+  match skip_info (rw_log w) with
   | RWriteHeader c snap :: r => mkresp c snap (log_body r)
   | l => mkresp statusOK (rw_h w) (log_body l)   (* implicit 200 (also for an empty log: handler wrote nothing) *)
   end.
+Definition client_infos (w : rwriter) : list Z := log_infos (rw_log w).
 
 (* MaxConns: the number of requests inside the handler never exceeds n (for n > 0) *)
 Definition conns_bounded (n : Z) (s : mstate) : Prop := 0 < n -> Z.of_nat (inside s) <= n.
